@@ -52,6 +52,14 @@ def _attrs_of(o):
 
 def snap_var(v):
     arr = v[...]
+    if arr is np.ma.masked:
+        # a fully masked scalar read from netCDF4 is the float64 constant numpy.ma.masked:
+        # the value is unobservable, the type is the variable's
+        arr = np.ma.MaskedArray(np.zeros((), dtype=np.dtype(v.dtype)), mask=True)
+        try:
+            arr.fill_value = v.getncattr('_FillValue')
+        except Exception:
+            pass
     mask = np.ma.getmaskarray(arr)
     data = np.array(np.ma.getdata(arr))
     if isinstance(mask, np.ndarray):
